@@ -57,7 +57,14 @@ impl Prop for C08 {
                         r.label("pci_data>16bit");
                     }
                 }
-                let Enc::Ok(len) = e else { return r };
+                let len = match e {
+                    Enc::Ok(n) => n,
+                    other => {
+                        // "message bodies of every length and content the SMBus frame can carry"
+                        r.fail(format!("C08:{}:valid_message_not_encoded", kind), format!("a message that fits the SMBus frame ({} bytes after the type byte) was not encoded: {:?}", p.body.len(), other));
+                        return r;
+                    }
+                };
                 if len < 10 || len > buf.len() {
                     r.fail(format!("C08:{}:len", kind), format!("impossible length {}", len));
                     return r;
